@@ -620,3 +620,110 @@ Proof.
   intros fuel sc thread w prompt initial c H. unfold run. rewrite H. cbn [run_cfg out_sent].
   apply agent_loop_sent_ok.
 Qed.
+
+(* ---- tools that see the world (inherited environment, readable config files) -------------------- *)
+Lemma run_calls_ext sc sc' :
+  (forall c, e_tools sc c = e_tools sc' c) ->
+  forall calls count, run_calls sc count calls = run_calls sc' count calls.
+Proof.
+  intros T calls. induction calls as [|c r IH]; intros count; [reflexivity|].
+  cbn [run_calls]. destruct (MAX_TOOL_CALLS <=? count); [reflexivity|].
+  rewrite (IH (count + 1)), (T c). reflexivity.
+Qed.
+
+Lemma agent_loop_tools_ext fuel dump sc t' c prompt :
+  (forall x, e_tools sc x = t' x) ->
+  forall st, agent_loop fuel dump sc c prompt st
+             = agent_loop fuel dump (mkScript (e_validate sc) (e_prov sc) t') c prompt st.
+Proof.
+  intros T. induction fuel as [|f IH]; intros st; [reflexivity|].
+  cbn [agent_loop].
+  destruct (MAX_TOOL_CALLS <=? ls_count st); [reflexivity|].
+  destruct (choose_payload c prompt st) as [[b kind]|]; [|reflexivity].
+  change (sr_frames dump (mkScript (e_validate sc) (e_prov sc) t') c (ls_idx st) kind b)
+    with (sr_frames dump sc c (ls_idx st) kind b).
+  change (sr_sent (mkScript (e_validate sc) (e_prov sc) t') c b) with (sr_sent sc c b).
+  change (sr_result (mkScript (e_validate sc) (e_prov sc) t') c (ls_idx st) b) with (sr_result sc c (ls_idx st) b).
+  destruct (sr_result sc c (ls_idx st) b) as [reason | rid calls]; [reflexivity|].
+  destruct calls as [|c0 calls]; [reflexivity|].
+  rewrite <- (run_calls_ext sc (mkScript (e_validate sc) (e_prov sc) t') T (c0 :: calls) (ls_count st)).
+  destruct (over rid (ls_prev st)) as [p|]; destruct (oc_stateless c); try reflexivity;
+    destruct (to_exceeded (run_calls sc (ls_count st) (c0 :: calls))); try reflexivity;
+    rewrite IH; reflexivity.
+Qed.
+
+Lemma run_tools_ext fuel sc t' thread w prompt initial :
+  (forall x, e_tools sc x = t' x) ->
+  run fuel sc thread w prompt initial = run fuel (mkScript (e_validate sc) (e_prov sc) t') thread w prompt initial.
+Proof.
+  intros T. unfold run, run_cfg.
+  destruct (if thread then thread_cfg w else session_cfg w) as [c|]; [|reflexivity].
+  rewrite <- (agent_loop_tools_ext fuel (dump_enabled (w_env w)) sc t' c prompt T). reflexivity.
+Qed.
+
+Lemma run_w_low fuel ws thread w prompt initial :
+  tools_blind ws ->
+  persisted (run_w fuel ws thread w prompt initial) = persisted (run_w fuel ws thread (low_world w) prompt initial).
+Proof.
+  intros B. unfold run_w.
+  rewrite (run_tools_ext fuel (inst ws w) (ws_tools ws (low_world w)) thread w prompt initial)
+    by (intros x; apply B).
+  change (mkScript (e_validate (inst ws w)) (e_prov (inst ws w)) (ws_tools ws (low_world w))) with (inst ws (low_world w)).
+  symmetry. apply run_low.
+Qed.
+
+(* the theorem under the hypothesis that tool output does not depend on secret values *)
+Theorem noninterference_blind_tools : forall fuel ws thread w1 w2 prompt initial,
+  tools_blind ws ->
+  low_world w1 = low_world w2 ->
+  persisted (run_w fuel ws thread w1 prompt initial) = persisted (run_w fuel ws thread w2 prompt initial)
+  /\ doctor w1 = doctor w2.
+Proof.
+  intros fuel ws thread w1 w2 prompt initial B L. split.
+  - rewrite (run_w_low fuel ws thread w1 prompt initial B), (run_w_low fuel ws thread w2 prompt initial B), L. reflexivity.
+  - rewrite <- (doctor_low w1), <- (doctor_low w2), L. reflexivity.
+Qed.
+
+(* the full-strength statement: ALL tool behaviours, including tools that print the environment they inherited *)
+Definition noninterference_full : Prop :=
+  forall fuel ws thread w1 w2 prompt initial,
+    low_world w1 = low_world w2 ->
+    persisted (run_w fuel ws thread w1 prompt initial) = persisted (run_w fuel ws thread w2 prompt initial)
+    /\ doctor w1 = doctor w2.
+
+(* witness: start-up configuration from the environment, the provider asks the shell tool for the key variable *)
+Definition leak_world (key : str) : world :=
+  mkWorld [] [(E_ENDPOINT, lit "http://127.0.0.1:9/v1/responses"); (E_API_KEY, key)] no_ovr.
+Definition leak_call : tcall := mkCall (lit "call_p") (lit "bash") (lit "{""command"":""printenv RIP_OPENRESPONSES_API_KEY""}").
+Definition leak_script : wscript :=
+  mkWScript (fun _ => [])
+            (fun idx _ _ => if idx =? 0 then PStream hd200 [SCreated (lit "resp_p1"); SCall leak_call] EDone
+                            else PStream hd200 [SCreated (lit "resp_p2"); SText (lit "done")] EDone)
+            printenv_tool.
+Definition leak_run (key : str) : outputs := run_w 10 leak_script false (leak_world key) (lit "probe") [].
+
+Lemma leak_low_equal : low_world (leak_world (lit "sk-AAAA")) = low_world (leak_world (lit "sk-BBBB")).
+Proof. vm_compute. reflexivity. Qed.
+
+Lemma leak_tool_events :
+  tool_events (fst (persisted (leak_run (lit "sk-AAAA")))) = [[lit "sk-AAAA"]]
+  /\ tool_events (fst (persisted (leak_run (lit "sk-BBBB")))) = [[lit "sk-BBBB"]].
+Proof. vm_compute. split; reflexivity. Qed.
+
+Theorem noninterference_full_refuted : ~ noninterference_full.
+Proof.
+  intros H.
+  destruct (H 10%nat leak_script false (leak_world (lit "sk-AAAA")) (leak_world (lit "sk-BBBB")) (lit "probe") []
+              leak_low_equal) as [P _].
+  fold (leak_run (lit "sk-AAAA")) in P. fold (leak_run (lit "sk-BBBB")) in P.
+  apply (f_equal (fun p => tool_events (fst p))) in P.
+  destruct leak_tool_events as [A B]. rewrite A, B in P. vm_compute in P. discriminate.
+Qed.
+
+(* the printing tool is indeed not blind, and every world-independent tool is *)
+Lemma printenv_not_blind : ~ tools_blind leak_script.
+Proof.
+  intros B. specialize (B (leak_world (lit "sk-AAAA")) leak_call). vm_compute in B. discriminate.
+Qed.
+Lemma const_tools_blind v p t : tools_blind (mkWScript v p (fun _ => t)).
+Proof. intros w c. reflexivity. Qed.
